@@ -731,6 +731,21 @@ def _run(world: World, plan):
                 world.violate('C13.dead_link', **facts)
         same_user_check()
         if state['session_lost'] is not None:
+            # out of scope (see INFO.assumptions); what the children were left with is counted, not judged
+            heard = None
+            if parent is not None:
+                rec = by_sim.get(conn_sim.get(id(parent.connection)))
+                heard = rec['heard'] if rec is not None else None
+            want = model.derived(OWN, heard) if (parent is None or heard is not None) else None
+            for c in children:
+                rec = by_sim.get(conn_sim.get(id(c.connection)))
+                if rec is None or want is None:
+                    continue
+                got = model.told([(k, v) for (_, k, v) in rec['got']], OWN)
+                if got['level'] is None:
+                    world.probe('sessionless_child_never_told')
+                elif got['level'] != want['level'] or got['root'] not in want['roots']:
+                    world.probe('sessionless_child_told_stale')
             return
         # advertised position
         heard = None
